@@ -247,6 +247,8 @@ def runtime_namespace(extra=None):
 
     ns.update(fwd_rank=fwd_rank, hier_names=hier_names)
     ns.update(dominates=dominates, dgfp=dgfp, tmap=LazyMap, identical=lambda a, b: a == b, same_value=lambda a, b: a == b)
+    import ast as _pyast
+    ns.update(isa=isinstance, ast=_pyast)
     ns.update(block_name=block_name, region_name=region_name, gen_region_name=region_name, var_name=var_name, gen_index=gen_index, is_generated=is_generated)
     ns.update(reach1=reach1, implies=implies, distinct=distinct, is_sorted=is_sorted, updated=updated, removed=removed,
               without=without, card=card, get=get, same_elements=same_elements, replace=dataclasses.replace)
